@@ -34,10 +34,12 @@ type PoolCfg struct {
 //
 //	Src 0 confirmed, mature, not spent by the pool     1 output of a pooled tx, not spent by the pool
 //	    2 confirmed, spent by a pooled tx (conflict)    3 output of a pooled tx spent by another pooled tx
-//	    4 output of a withheld (not yet submitted) tx   5 unknown txid
+//	    4 output of a withheld tx or of an orphan       5 unknown txid
 //	    6 immature coinbase                             7 outpoint already spent by the active chain
 //	    8 repeat an earlier input of this transaction   9 output of a pooled tx this transaction conflicts with
-//	   10 txid sharing only the first 8 bytes with a pooled tx
+//	   10 txid sharing only the first 8 bytes with a pooled / withheld tx
+//	   11 output index that a withheld tx does not have
+//	   12 the confirmed output whose pooled spender has the most descendants
 type InSel struct {
 	Src int `json:"src,omitempty"`
 	Sel int `json:"sel,omitempty"`
@@ -67,9 +69,11 @@ type TxSpec struct {
 //	flood    N padded transactions (eviction)
 //	mine     assemble a block from the listing and deliver it: Arg bit0 GetSortedMempool instead of ..RBF,
 //	         bit1 add unknown transactions, bit2 add transactions conflicting with pooled ones that stay
-//	         outside; N > 0 limits the weight budget to N*600
+//	         outside, bit3 (with bit1) also a spender of an output of the withheld parent it includes;
+//	         N > 0 limits the weight budget to N*600
 //	tick     Tick(); N pooled transactions (starting at Pick) get Lastseen back-dated by 15 days (Arg bit1:
 //	         13 days), Arg bit0 forces the expiry scan; Ring > 0 changes CFG.TXPool.RejectRecCnt first
+//	deepreorg  a branch of empty blocks replaces the last 101+Arg blocks (deeper than the coinbase maturity)
 //	save     MempoolSave(true) + MempoolLoad(); Arg bit0: with a restart of the chain in between
 type Op struct {
 	K    string  `json:"k"`
@@ -159,7 +163,7 @@ func genTx(t *rapid.T, signed bool) *TxSpec {
 		ts.Ins = []InSel{genIn(t, rapid.SampledFrom([]int{2, 3}).Draw(t, "srcc")), genIn(t, 9)}
 		ts.Rel = rapid.SampledFrom([]int{3, 4, 4}).Draw(t, "rel")
 	case k < 85: // child of a withheld parent (orphan)
-		ts.Ins = []InSel{genIn(t, 4)}
+		ts.Ins = []InSel{genIn(t, rapid.SampledFrom([]int{4, 4, 4, 4, 11}).Draw(t, "srch"))}
 		if rapid.IntRange(0, 2).Draw(t, "mix") == 0 {
 			ts.Ins = append(ts.Ins, genIn(t, rapid.SampledFrom([]int{0, 1}).Draw(t, "srco")))
 		}
@@ -207,7 +211,14 @@ func genBlk(t *rapid.T, parent, maxTx int) Op {
 	b := &sim.Op{Kind: "block", Parent: parent, DT: rapid.IntRange(0, 1199).Draw(t, "dt"), Arg: rapid.IntRange(0, 1<<12).Draw(t, "arg")}
 	n := rapid.IntRange(0, maxTx).Draw(t, "ntx")
 	for i := 0; i < n; i++ {
-		b.Txs = append(b.Txs, sim.GenTx(t))
+		ts := sim.GenTx(t)
+		if ts.Seq == 1 || ts.Seq == 3 {
+			// no relative lock times: gocoin does not implement BIP68 at all (open finding F9 of C04); a block
+			// transaction with such a lock that returns to the pool and is mined again earlier than the lock
+			// allows would only reproduce that finding
+			ts.Seq = 2
+		}
+		b.Txs = append(b.Txs, ts)
 	}
 	return Op{K: "blk", Blk: b, Net: rapid.Bool().Draw(t, "net")}
 }
@@ -227,6 +238,7 @@ func genCase(t *rapid.T, minOps, maxOps int) Case {
 		c.Cfg.MaxPoolKB = rapid.SampledFrom([]int{100, 250, 400}).Draw(t, "poolkb")
 	}
 	long := rapid.IntRange(0, 11).Draw(t, "longchain") == 0
+	deep := rapid.IntRange(0, 15).Draw(t, "deep") == 0
 
 	// mostly minOps..maxOps steps; the rare short form is what shrinking converges to
 	n := 0
@@ -250,7 +262,7 @@ func genCase(t *rapid.T, minOps, maxOps int) Case {
 		case k < 63:
 			c.Ops = append(c.Ops, Op{K: "resend", Pick: rapid.IntRange(0, 1<<12).Draw(t, "pick"), Path: genPath(t), NoL: nol})
 		case k < 76:
-			c.Ops = append(c.Ops, Op{K: "mine", Arg: rapid.IntRange(0, 7).Draw(t, "marg"), N: rapid.SampledFrom([]int{0, 0, 0, 1, 2, 4, 8}).Draw(t, "budget"),
+			c.Ops = append(c.Ops, Op{K: "mine", Arg: rapid.IntRange(0, 15).Draw(t, "marg"), N: rapid.SampledFrom([]int{0, 0, 0, 1, 2, 4, 8}).Draw(t, "budget"),
 				DT: rapid.IntRange(0, 1199).Draw(t, "dt"), Net: rapid.Bool().Draw(t, "net"), Pick: rapid.IntRange(0, 1<<12).Draw(t, "pick"), NoL: nol})
 		case k < 81: // a block on the tip carrying transactions the pool does not know (some conflict with it)
 			op := genBlk(t, -1, 3)
@@ -265,22 +277,55 @@ func genCase(t *rapid.T, minOps, maxOps int) Case {
 				op.NoL = nol
 				c.Ops = append(c.Ops, op)
 			}
-		case k < 92:
+		case k < 91:
 			c.Ops = append(c.Ops, Op{K: "tick", N: rapid.IntRange(0, 4).Draw(t, "nold"), Pick: rapid.IntRange(0, 1<<12).Draw(t, "pick"),
 				Arg: rapid.IntRange(0, 3).Draw(t, "targ"), Ring: rapid.SampledFrom([]int{0, 0, 0, 100, 117, 300}).Draw(t, "ring"), NoL: nol})
-		case k < 96:
+		case k < 94:
 			c.Ops = append(c.Ops, Op{K: "save", Arg: rapid.SampledFrom([]int{0, 0, 0, 1}).Draw(t, "sarg"), NoL: nol})
 		case k < 97:
-			c.Ops = append(c.Ops, Op{K: "blk", Blk: &sim.Op{Kind: "idle", Arg: rapid.IntRange(0, 1).Draw(t, "wait")}})
+			if rapid.IntRange(0, 5).Draw(t, "idle") == 0 {
+				c.Ops = append(c.Ops, Op{K: "blk", Blk: &sim.Op{Kind: "idle", Arg: rapid.IntRange(0, 1).Draw(t, "wait")}})
+				break
+			}
+			// an orphan family: parent withheld, 1..3 descendants submitted, then the parent arrives (or is mined)
+			ps := genTx(t, signed)
+			ps.Bad, ps.Lock, ps.Rel = "", 0, 0
+			ps.Ins = []InSel{genIn(t, rapid.SampledFrom([]int{0, 0, 1}).Draw(t, "psrc"))}
+			c.Ops = append(c.Ops, Op{K: "hold", Tx: ps, NoL: nol})
+			for i, nd := 0, rapid.IntRange(1, 3).Draw(t, "ndesc"); i < nd; i++ {
+				ch := genTx(t, signed)
+				ch.Bad, ch.Lock, ch.Rel = "", 0, 0
+				ch.Ins = []InSel{genIn(t, 4)}
+				if rapid.IntRange(0, 3).Draw(t, "mix") == 0 {
+					ch.Ins = append(ch.Ins, genIn(t, rapid.SampledFrom([]int{0, 1}).Draw(t, "srco")))
+				}
+				c.Ops = append(c.Ops, Op{K: "submit", Tx: ch, Path: genPath(t), NoL: nol})
+			}
+			if rapid.IntRange(0, 3).Draw(t, "how") == 0 {
+				c.Ops = append(c.Ops, Op{K: "mine", Arg: 2 | rapid.SampledFrom([]int{0, 0, 8}).Draw(t, "sp"), N: rapid.SampledFrom([]int{0, 1}).Draw(t, "budget"), Pick: 0, Net: rapid.Bool().Draw(t, "net")})
+			} else {
+				c.Ops = append(c.Ops, Op{K: "release", Pick: -1, Path: genPath(t)})
+			}
 		default:
+			if deep && len(c.Ops) > 8 {
+				// a reorganisation deeper than the coinbase maturity
+				c.Ops = append(c.Ops, Op{K: "deepreorg", Arg: rapid.IntRange(0, 7).Draw(t, "darg"), DT: rapid.IntRange(0, 1199).Draw(t, "dt"), Net: rapid.Bool().Draw(t, "net")})
+				deep = false
+				break
+			}
 			if evict {
 				ts := genTx(t, false)
 				ts.Bad, ts.Lock, ts.Rel = "", 0, 0
 				ts.PadKB = rapid.IntRange(60, 95).Draw(t, "pad")
 				c.Ops = append(c.Ops, Op{K: "flood", Tx: ts, N: rapid.IntRange(4, 16).Draw(t, "nflood"), Path: genPath(t), Pick: rapid.IntRange(0, 1<<12).Draw(t, "pick")})
 			} else if long {
-				ts := &TxSpec{Ins: []InSel{genIn(t, 0)}, Outs: []sim.OutSpec{{Fam: 0, Share: 50}, {Fam: 0, Share: 50}}, Rate: rapid.IntRange(1, 4).Draw(t, "rate")}
+				// more than 100 descendants, then something that replaces the root (trusted and local submissions
+				// are not bound by the 100-transaction limit)
+				ts := &TxSpec{Ins: []InSel{genIn(t, 0)}, Outs: []sim.OutSpec{{Fam: 0, Share: 98}, {Fam: 0, Share: 0}}, Rate: rapid.IntRange(1, 4).Draw(t, "rate")}
 				c.Ops = append(c.Ops, Op{K: "chain", Tx: ts, N: rapid.IntRange(95, 115).Draw(t, "nchain"), Path: genPath(t)})
+				rs := &TxSpec{Ins: []InSel{genIn(t, 12)}, Outs: genOuts(t, signed), Rel: rapid.SampledFrom([]int{2, 3, 4}).Draw(t, "rel")}
+				c.Ops = append(c.Ops, Op{K: "submit", Tx: rs, Path: rapid.SampledFrom([]int{0, 1, 2, 2}).Draw(t, "rpath")})
+				long = false
 			} else {
 				ts := genTx(t, signed)
 				ts.Bad, ts.Lock, ts.Rel = "", 0, 0
@@ -296,7 +341,7 @@ func TestMempool(t *testing.T) {
 	if pbt.Tier() == "thorough" {
 		minOps, maxOps = 50, 150
 	}
-	pbt.Check(t, pbt.Cfg{Name: "mempool", Quick: 480, Thorough: 12000}, func(r *pbt.Run) {
+	pbt.Check(t, pbt.Cfg{Name: "mempool", Quick: 2400, Thorough: 40000}, func(r *pbt.Run) {
 		c := genCase(r.T, minOps, maxOps)
 		r.Case(c)
 		st, err := runCase(c)
@@ -319,6 +364,10 @@ func TestMempool(t *testing.T) {
 		pbt.AddExtra("max_pool", 0)
 		if x, ok := err.(*sim.Excluded); ok {
 			r.Excluded(x.Key)
+			return
+		}
+		if _, ok := err.(*refusedNonFinal); ok && inReorgTimeLockClass(c) && pbt.FindingOpen(keyReorgMTP) {
+			r.Excluded(keyReorgMTP)
 			return
 		}
 		if err != nil {
